@@ -17,6 +17,7 @@
 
 #include <foonathan/memory/allocator_storage.hpp>
 #include <foonathan/memory/threading.hpp>
+#include <foonathan/memory/tracking.hpp>
 
 #include <atomic>
 #include <map>
@@ -82,6 +83,10 @@ struct obs
     int  first_nolock = -1, first_overlap = -1;
     long lock_calls = 0; // lock()/try_lock() calls on any instrumented mutex
     bool aborted    = false;
+    // composed allocators (tracked_allocator): the part WITHOUT state of its own (empty tracker / stateless inner
+    // allocator) is still part of a stateful allocator, so its entries must happen under the lock as well
+    long        aux_entries = 0, aux_next = 0;
+    const char* nolock_site = nullptr; // where the first unlocked entry happened, if not in the allocator proper
 };
 static obs* G = nullptr;
 
@@ -110,6 +115,26 @@ struct imutex : sched::mutex
         return sched::mutex::try_lock();
     }
 };
+// A second Mutex type: an EMPTY class whose lock()/unlock() operate on a process-wide mutex (here: the
+// instrumented mutex object of the current execution). "All mutex types" includes such user mutexes; the
+// wrapper must call them like any other.
+static imutex* g_emutex_target = nullptr;
+struct emutex
+{
+    void lock()
+    {
+        g_emutex_target->lock();
+    }
+    bool try_lock()
+    {
+        return g_emutex_target->try_lock();
+    }
+    void unlock()
+    {
+        g_emutex_target->unlock();
+    }
+};
+static_assert(std::is_empty<emutex>::value, "emutex must be an empty class");
 static void yield_point(const char* tag)
 {
     sched::point(tag);
@@ -120,8 +145,82 @@ static bool mutex_owned_by_me(const obs& s)
 }
 #else
 using imutex = std::mutex;
+struct emutex // empty class locking a process-wide std::mutex
+{
+    static std::mutex& target()
+    {
+        static std::mutex m;
+        return m;
+    }
+    void lock()
+    {
+        target().lock();
+    }
+    bool try_lock()
+    {
+        return target().try_lock();
+    }
+    void unlock()
+    {
+        target().unlock();
+    }
+};
 static void yield_point(const char*) {}
 #endif
+
+// entry into a part of the wrapped allocator that HAS state: owner check, in-call flag, split read-modify-write
+static long enter_state(obs& s, int member, const char* site)
+{
+#ifndef TSAFE_TSAN
+    ++s.entries;
+    ++s.entries_by[member];
+    if (!mutex_owned_by_me(s))
+    {
+        ++s.nolock;
+        if (s.first_nolock < 0)
+        {
+            s.first_nolock = member;
+            s.nolock_site  = site;
+        }
+    }
+    if (s.in_call)
+    {
+        ++s.overlap;
+        if (s.first_overlap < 0)
+            s.first_overlap = member;
+    }
+    ++s.in_call;
+#endif
+    long old = s.counter; // read
+    yield_point("rmw");   // ... another thread may run here if nothing serialises us
+    s.counter = old + 1;  // write
+#ifndef TSAFE_TSAN
+    --s.in_call;
+#endif
+    (void)member;
+    (void)site;
+    return old;
+}
+// entry into the stateless part of a composed stateful allocator: owner check only
+static void enter_aux(int member, const char* site)
+{
+#ifndef TSAFE_TSAN
+    obs& s = *G;
+    ++s.aux_entries;
+    if (!mutex_owned_by_me(s))
+    {
+        ++s.nolock;
+        if (s.first_nolock < 0)
+        {
+            s.first_nolock = member;
+            s.nolock_site  = site;
+        }
+    }
+#endif
+    (void)member;
+    (void)site;
+    yield_point("aux-call");
+}
 
 //=== instrumented stateful RawAllocator (composable: has try_*) ===//
 // Two flavours with identical instrumentation:
@@ -160,32 +259,7 @@ struct iallocT : State
 
     long enter(int member) const
     {
-        obs& s = this->state();
-#ifndef TSAFE_TSAN
-        ++s.entries;
-        ++s.entries_by[member];
-        if (!mutex_owned_by_me(s))
-        {
-            ++s.nolock;
-            if (s.first_nolock < 0)
-                s.first_nolock = member;
-        }
-        if (s.in_call)
-        {
-            ++s.overlap;
-            if (s.first_overlap < 0)
-                s.first_overlap = member;
-        }
-        ++s.in_call;
-#endif
-        long old = s.counter; // read
-        yield_point("rmw");   // ... another thread may run here if nothing serialises us
-        s.counter = old + 1;  // write
-#ifndef TSAFE_TSAN
-        --s.in_call;
-#endif
-        (void)member;
-        return old;
+        return enter_state(this->state(), member, nullptr);
     }
     static void* slot(long i) noexcept
     {
@@ -247,6 +321,128 @@ using ealloc = iallocT<global_state>;
 static_assert(std::is_empty<ealloc>::value && fm::allocator_traits<ealloc>::is_stateful::value,
               "ealloc must be an empty class that is nevertheless stateful");
 static_assert(fm::is_composable_allocator<ealloc>::value, "");
+
+//=== composed allocators: tracked_allocator<Tracker, RawAllocator> ===//
+// tk_sf: tracker WITH state (split read-modify-write in every callback) over a stateless allocator
+// tk_es: empty tracker over the stateful instrumented allocator
+// Both are stateful as a whole (tracked_allocator::is_stateful), so every callback of the tracker and every member of
+// the inner allocator must run under the wrapper's lock. (Deliberately no static_assert on is_stateful here: a tree
+// that gets this wrong must be caught by the oracle, with a schedule, not by a build failure.)
+struct itracker
+{
+    obs* o; // non-empty: this tracker is state
+    itracker() noexcept : o(nullptr) {}
+    explicit itracker(obs* s) noexcept : o(s) {}
+    obs& state() const noexcept
+    {
+        return o ? *o : *G;
+    }
+    void on_node_allocation(void*, std::size_t, std::size_t) noexcept
+    {
+        enter_state(state(), ALLOC_NODE, "tracker callback on_node_allocation");
+    }
+    void on_array_allocation(void*, std::size_t, std::size_t, std::size_t) noexcept
+    {
+        enter_state(state(), ALLOC_ARRAY, "tracker callback on_array_allocation");
+    }
+    void on_node_deallocation(void*, std::size_t, std::size_t) noexcept
+    {
+        enter_state(state(), DEALLOC_NODE, "tracker callback on_node_deallocation");
+    }
+    void on_array_deallocation(void*, std::size_t, std::size_t, std::size_t) noexcept
+    {
+        enter_state(state(), DEALLOC_ARRAY, "tracker callback on_array_deallocation");
+    }
+    void on_allocator_growth(void*, std::size_t) noexcept {}
+    void on_allocator_shrinking(void*, std::size_t) noexcept {}
+};
+struct etracker
+{
+    void on_node_allocation(void*, std::size_t, std::size_t) noexcept
+    {
+        enter_aux(ALLOC_NODE, "empty tracker's callback on_node_allocation");
+    }
+    void on_array_allocation(void*, std::size_t, std::size_t, std::size_t) noexcept
+    {
+        enter_aux(ALLOC_ARRAY, "empty tracker's callback on_array_allocation");
+    }
+    void on_node_deallocation(void*, std::size_t, std::size_t) noexcept
+    {
+        enter_aux(DEALLOC_NODE, "empty tracker's callback on_node_deallocation");
+    }
+    void on_array_deallocation(void*, std::size_t, std::size_t, std::size_t) noexcept
+    {
+        enter_aux(DEALLOC_ARRAY, "empty tracker's callback on_array_deallocation");
+    }
+    void on_allocator_growth(void*, std::size_t) noexcept {}
+    void on_allocator_shrinking(void*, std::size_t) noexcept {}
+};
+// stateless allocator used INSIDE a stateful composition: checks the owner on entry
+struct csalloc
+{
+    using is_stateful = std::false_type;
+    static void* fresh() noexcept
+    {
+#ifndef TSAFE_TSAN
+        return ARENA + 16 * ((G->aux_next++) % 64);
+#else
+        return ARENA;
+#endif
+    }
+    void* allocate_node(std::size_t, std::size_t)
+    {
+        enter_aux(ALLOC_NODE, "stateless inner allocator allocate_node");
+        return fresh();
+    }
+    void* allocate_array(std::size_t, std::size_t, std::size_t)
+    {
+        enter_aux(ALLOC_ARRAY, "stateless inner allocator allocate_array");
+        return fresh();
+    }
+    void deallocate_node(void*, std::size_t, std::size_t) noexcept
+    {
+        enter_aux(DEALLOC_NODE, "stateless inner allocator deallocate_node");
+    }
+    void deallocate_array(void*, std::size_t, std::size_t, std::size_t) noexcept
+    {
+        enter_aux(DEALLOC_ARRAY, "stateless inner allocator deallocate_array");
+    }
+    void* try_allocate_node(std::size_t, std::size_t) noexcept
+    {
+        enter_aux(TRY_ALLOC_NODE, "stateless inner allocator try_allocate_node");
+        return fresh();
+    }
+    void* try_allocate_array(std::size_t, std::size_t, std::size_t) noexcept
+    {
+        enter_aux(TRY_ALLOC_ARRAY, "stateless inner allocator try_allocate_array");
+        return fresh();
+    }
+    bool try_deallocate_node(void*, std::size_t, std::size_t) noexcept
+    {
+        enter_aux(TRY_DEALLOC_NODE, "stateless inner allocator try_deallocate_node");
+        return true;
+    }
+    bool try_deallocate_array(void*, std::size_t, std::size_t, std::size_t) noexcept
+    {
+        enter_aux(TRY_DEALLOC_ARRAY, "stateless inner allocator try_deallocate_array");
+        return true;
+    }
+    std::size_t max_node_size() const
+    {
+        enter_aux(MAX_NODE, "stateless inner allocator max_node_size");
+        return 1024;
+    }
+    std::size_t max_array_size() const
+    {
+        enter_aux(MAX_ARRAY, "stateless inner allocator max_array_size");
+        return 1024;
+    }
+    std::size_t max_alignment() const
+    {
+        enter_aux(MAX_ALIGN, "stateless inner allocator max_alignment");
+        return 16;
+    }
+};
 
 
 //=== stateless RawAllocator: nothing to protect; counts entries in the execution's obs ===//
@@ -346,25 +542,40 @@ ealloc make_alloc<ealloc>(obs*)
 {
     return ealloc();
 }
+using tk_sf = fm::tracked_allocator<itracker, csalloc>; // stateful tracker over a stateless allocator
+using tk_es = fm::tracked_allocator<etracker, ialloc>;  // empty tracker over a stateful allocator
+template <>
+tk_sf make_alloc<tk_sf>(obs* o)
+{
+    return tk_sf(itracker(o), csalloc());
+}
+template <>
+tk_es make_alloc<tk_es>(obs* o)
+{
+    return tk_es(etracker(), ialloc(o));
+}
 
-template <class A>
+template <class A, class M = imutex>
 struct direct_holder
 {
-    fm::thread_safe_allocator<A, imutex> st;
+    using mutex_type = M;
+    fm::thread_safe_allocator<A, M> st;
     explicit direct_holder(obs* o) : st(make_alloc<A>(o)) {}
 };
-template <class A>
+template <class A, class M = imutex>
 struct ref_holder
 {
-    A                                                         a;
-    fm::allocator_storage<fm::reference_storage<A>, imutex> st;
+    using mutex_type = M;
+    A                                                    a;
+    fm::allocator_storage<fm::reference_storage<A>, M> st;
     explicit ref_holder(obs* o) : a(make_alloc<A>(o)), st(a) {}
 };
-template <class A>
+template <class A, class M = imutex>
 struct any_holder
 {
-    A                                                              a;
-    fm::allocator_storage<fm::reference_storage<fm::any_allocator>, imutex> st; // any_allocator_reference + Mutex
+    using mutex_type = M;
+    A                                                                   a;
+    fm::allocator_storage<fm::reference_storage<fm::any_allocator>, M> st; // any_allocator_reference + Mutex
     explicit any_holder(obs* o) : a(make_alloc<A>(o)), st(a) {}
 };
 
@@ -452,12 +663,14 @@ void do_op(St& st, int op, std::vector<void*>& ret)
 
 using program = std::vector<std::vector<int>>;
 
-static int expected_entries(const program& p)
+// tracked_allocator with the stateful tracker: entries with state = tracker callbacks (none for the max_* queries)
+static const int TK_SF_ENTRIES[N_ALL_OPS] = {1, 1, 1, 1, 1, 1, 1, 1, 0, 0, 0, 2, 0, 2, 0, 0};
+static int       expected_entries(const program& p, bool tracker_is_state = false)
 {
     int n = 0;
     for (auto& t : p)
         for (int o : t)
-            n += OP_ENTRIES[o];
+            n += tracker_is_state ? TK_SF_ENTRIES[o] : OP_ENTRIES[o];
     return n;
 }
 static std::string prog_json(const program& p, bool names)
@@ -648,13 +861,14 @@ struct pworld_base : sched::world
     obs                o;
     program            prog;
     std::vector<void*> ret[sched::max_threads];
+    std::unique_ptr<imutex> process_wide_mutex; // what the empty Mutex type locks (one per execution)
     int                threads() override
     {
         return int(prog.size());
     }
     sched::u64 state_hash() override
     {
-        sched::u64 h = sched::u64(o.counter) | (sched::u64(o.in_call) << 16) | (sched::u64(o.entries) << 24);
+        sched::u64 h = sched::u64(o.counter) | (sched::u64(o.in_call) << 16) | (sched::u64(o.entries + 31 * o.aux_entries) << 24);
         int        owner = o.mutexes.empty() ? -7 : o.mutexes[0]->owner;
         return h ^ (sched::u64(owner + 8) << 40);
     }
@@ -668,6 +882,11 @@ struct pworld : pworld_base
     {
         prog = p;
         G    = &o;
+        if (std::is_same<typename Holder::mutex_type, emutex>::value)
+        {
+            process_wide_mutex.reset(new imutex); // registers itself in o.mutexes
+            g_emutex_target = process_wide_mutex.get();
+        }
         h.reset(new Holder(&o)); // constructs the allocator_storage (and with it its mutex) outside the scheduler
     }
     void run_thread(int id) override
@@ -679,21 +898,42 @@ struct pworld : pworld_base
 
 struct run_cfg
 {
-    std::string storage = "direct", alloc = "stateful";
+    std::string storage = "direct", alloc = "stateful", mutex = "inst";
+    // alloc: stateful | stateless | empty (empty class, is_stateful) | tracked-sf (stateful tracker over stateless
+    //        allocator) | tracked-es (empty tracker over stateful allocator);  mutex: inst | empty (empty Mutex class)
 };
 
+template <template <class, class> class Holder>
+static pworld_base* make_world_for(const run_cfg& c, const program& p)
+{
+    if (c.mutex == "empty")
+    {
+        if (c.alloc == "stateful")
+            return new pworld<Holder<ialloc, emutex>>(p);
+        std::fprintf(stderr, "the empty mutex type is only combined with --alloc stateful\n");
+        std::exit(2);
+    }
+    if (c.alloc == "stateful")
+        return new pworld<Holder<ialloc, imutex>>(p);
+    if (c.alloc == "stateless")
+        return new pworld<Holder<salloc, imutex>>(p);
+    if (c.alloc == "empty")
+        return new pworld<Holder<ealloc, imutex>>(p);
+    if (c.alloc == "tracked-sf")
+        return new pworld<Holder<tk_sf, imutex>>(p);
+    if (c.alloc == "tracked-es")
+        return new pworld<Holder<tk_es, imutex>>(p);
+    std::fprintf(stderr, "unknown alloc %s\n", c.alloc.c_str());
+    std::exit(2);
+}
 static pworld_base* make_world(const run_cfg& c, const program& p)
 {
-    int k = c.alloc == "stateless" ? 1 : c.alloc == "empty" ? 2 : 0;
     if (c.storage == "direct")
-        return k == 1 ? (pworld_base*)new pworld<direct_holder<salloc>>(p)
-                      : k == 2 ? (pworld_base*)new pworld<direct_holder<ealloc>>(p) : new pworld<direct_holder<ialloc>>(p);
+        return make_world_for<direct_holder>(c, p);
     if (c.storage == "ref")
-        return k == 1 ? (pworld_base*)new pworld<ref_holder<salloc>>(p)
-                      : k == 2 ? (pworld_base*)new pworld<ref_holder<ealloc>>(p) : new pworld<ref_holder<ialloc>>(p);
+        return make_world_for<ref_holder>(c, p);
     if (c.storage == "any")
-        return k == 1 ? (pworld_base*)new pworld<any_holder<salloc>>(p)
-                      : k == 2 ? (pworld_base*)new pworld<any_holder<ealloc>>(p) : new pworld<any_holder<ialloc>>(p);
+        return make_world_for<any_holder>(c, p);
     std::fprintf(stderr, "unknown storage %s\n", c.storage.c_str());
     std::exit(2);
 }
@@ -729,10 +969,13 @@ static void judge(const run_cfg& c, pworld_base& w, const sched::run_result& r, 
         if (o.nolock)
             v.push_back({"no-lock", fmt("%ld entr%s into the wrapped allocator while the mutex was not held by the calling "
                                         "thread (first: %s)%s",
-                                        o.nolock, o.nolock == 1 ? "y" : "ies", OP_NAME[o.first_nolock],
-                                        o.mutexes.empty() ? "; the allocator_storage object embeds no Mutex at all although the "
-                                                            "allocator is stateful (is_stateful = true_type)"
-                                                          : "")});
+                                        o.nolock, o.nolock == 1 ? "y" : "ies",
+                                        o.nolock_site ? o.nolock_site : OP_NAME[o.first_nolock],
+                                        o.mutexes.empty()
+                                            ? "; the allocator_storage object embeds no Mutex at all although the allocator is stateful"
+                                            : (c.mutex == "empty" && o.lock_calls == 0
+                                                   ? "; the user's Mutex type (an empty class locking a process-wide mutex) was never called"
+                                                   : ""))});
         if (o.overlap)
             v.push_back({"overlap", fmt("two threads were inside the wrapped allocator at once (%ld times, first in %s)",
                                         o.overlap, OP_NAME[o.first_overlap])});
@@ -745,7 +988,7 @@ static void judge(const run_cfg& c, pworld_base& w, const sched::run_result& r, 
     }
     if (!r.complete || o.aborted)
         return; // final-state clauses need a complete execution
-    int exp = expected_entries(w.prog);
+    int exp = expected_entries(w.prog, c.alloc == "tracked-sf");
     if (o.entries != exp)
         herr.push_back(fmt("program makes %d calls but %ld reached the wrapped allocator", exp, o.entries));
     if (stateful)
@@ -791,6 +1034,7 @@ static std::string case_json(const run_cfg& c, const program& p, const std::vect
     return jobj()
         .str("storage", c.storage)
         .str("alloc", c.alloc)
+        .str("mutex", c.mutex)
         .raw("prog", prog_json(p, false))
         .raw("calls", prog_json(p, true))
         .raw("schedule", s.done())
@@ -802,13 +1046,14 @@ static int replay_case(const std::string& js)
     run_cfg c;
     c.storage = json_str(js, "storage", "direct");
     c.alloc   = json_str(js, "alloc", "stateful");
+    c.mutex   = json_str(js, "mutex", "inst");
     program p = json_ints(js, "prog");
     auto    s = json_ints(js, "schedule");
     std::vector<sched::u8> prefix;
     if (!s.empty())
         for (int x : s[0])
             prefix.push_back(sched::u8(x));
-    std::printf("storage=%s alloc=%s program=%s\n", c.storage.c_str(), c.alloc.c_str(), prog_json(p, true).c_str());
+    std::printf("storage=%s alloc=%s mutex=%s program=%s\n", c.storage.c_str(), c.alloc.c_str(), c.mutex.c_str(), prog_json(p, true).c_str());
     auto                     w = make_world(c, p);
     auto                     r = sched::run(*w, prefix);
     std::vector<violation>   v;
@@ -1389,6 +1634,7 @@ int main(int argc, char** argv)
     run_cfg c;
     c.storage            = a.s("storage", "direct");
     c.alloc              = a.s("alloc", "stateful");
+    c.mutex              = a.s("mutex", "inst");
     std::string shape    = a.s("shape", "2x1");
     bool        thorough = a.s("tier", "quick") == "thorough";
     int         bound    = int(a.n("bound", shape == "2x1" ? 1000 : (thorough ? 3 : 2)));
@@ -1564,7 +1810,7 @@ int main(int argc, char** argv)
         .dbl("executions_per_s", wall > 0 ? double(executions) / wall : 0)
         .num("pinned_cpu", cpu)
         .str("storage", c.storage)
-        .str("alloc", c.alloc)
+        .str("alloc", c.alloc + (c.mutex == "empty" ? "+empty-mutex-type" : ""))
         .str("shape", shape);
     std::string rule
         = "one evaluation = one complete schedule (sequence of thread choices at the scheduling points lock / "
@@ -1629,7 +1875,7 @@ static long free_run(const program& p, long iters, long& bad_state)
         go.store(1, std::memory_order_relaxed);
         for (auto& t : th)
             t.join();
-        if (o.counter != expected_entries(p))
+        if (o.counter != expected_entries(p, std::is_same<Holder, direct_holder<tk_sf>>::value))
             ++bad_state;
     }
     return g_reports - before;
@@ -1643,6 +1889,10 @@ static long free_run_storage(const std::string& storage, const program& p, long 
         return free_run<ref_holder<ialloc>>(p, iters, bad);
     if (storage == "direct-empty")
         return free_run<direct_holder<ealloc>>(p, iters, bad);
+    if (storage == "direct-tracked") // stateful tracker over a stateless allocator
+        return free_run<direct_holder<tk_sf>>(p, iters, bad);
+    if (storage == "direct-emptymutex") // Mutex = empty class locking a process-wide std::mutex
+        return free_run<direct_holder<ialloc, emutex>>(p, iters, bad);
     return free_run<any_holder<ialloc>>(p, iters, bad);
 }
 
@@ -1762,7 +2012,7 @@ int main(int argc, char** argv)
                           .raw("input", jobj().str("storage", storage).str("alloc", "stateful").raw("prog", prog_json(p, false)).raw("calls", prog_json(p, true)).boolean("tsan", true).done())
                           .done());
     };
-    for (const char* storage : {"direct", "ref", "any", "direct-empty"})
+    for (const char* storage : {"direct", "ref", "any", "direct-empty", "direct-tracked", "direct-emptymutex"})
     {
         auto br = run_batch(storage, progs, iters);
         runs += br.runs;
@@ -1781,7 +2031,7 @@ int main(int argc, char** argv)
     extra.num("free_runs", runs).num("tsan_reports", reports).num("programs_with_report", nviol).num("hung_batches", hangs);
     jobj out;
     out.num("evaluations", runs)
-        .num("distinct_nontrivial", (long long)progs.size() * 4)
+        .num("distinct_nontrivial", (long long)progs.size() * 6)
         .str("rule", "side run (sampling): every 2x2 program free-running with std::mutex under ThreadSanitizer")
         .raw("samples", samples.done())
         .boolean("exhaustive", false)
